@@ -113,9 +113,16 @@ structure Store where
   authReqs : List AuthReq := []
   codes : List (String × String) := []          -- code ↦ auth request id
   refresh : List RefreshReq := []
+  is_ClientCredentialsStorage : Bool := false   -- optional storage capability
   deriving Repr, Inhabited
 
 namespace Store
+/-- `ClientCredentialsStorage.ClientCredentials`: the client exists, is registered for the grant, secret matches -/
+def ClientCredentials (s : Store) (id secret : String) : Go.R OPClient :=
+  match s.clients.find? (·.id == id) with
+  | some c => if c.grants.contains Const.GrantTypeClientCredentials && c.secret == secret then .ok c else .error "ErrInvalidClient"
+  | none => .error "ErrInvalidClient"
+
 def GetClientByClientID (s : Store) (id : String) : Go.R OPClient :=
   match s.clients.find? (·.id == id) with
   | some c => .ok c
@@ -193,6 +200,23 @@ structure ClientRequest (α : Type) where
 
 structure LegacyServer where
   provider : Provider
+
+structure FormVals where
+  kv : List (String × String) := []
+  deriving Repr, Inhabited
+/-- `url.Values.Get`: first value, "" when absent -/
+def FormVals.Get (f : FormVals) (k : String) : String := ((f.kv.find? (·.1 == k)).map (·.2)).getD ""
+
+structure ClientCredentials where
+  ClientID : String := ""
+  ClientSecret : String := ""
+  ClientAssertion : Token := default
+  ClientAssertionType : String := ""
+  deriving Repr, Inhabited
+
+structure Request (α : Type) where
+  Form : FormVals := {}
+  Data : α
 
 /-- what `CreateTokenResponse` is asked to issue (the issuing itself is modelled in the stateful shell) -/
 inductive IssueFor
